@@ -285,6 +285,11 @@ class Interpreter:
     def bind(self, target: ast.AST, val: V, env: dict) -> None:
         if isinstance(target, ast.Name):
             env[target.id] = val
+        elif isinstance(target, (ast.Tuple, ast.List)) and isinstance(val, VSeq) and sum(isinstance(t, ast.Starred) for t in target.elts) == 1 and isinstance(target.elts[-1], ast.Starred):
+            # first, second, *rest = seq
+            for k, t in enumerate(target.elts[:-1]):
+                self.bind(t, VNamed(f'elem:{val.name}', {'#seq': val, '#index': VInt(0, None, k)}), env)
+            self.bind(target.elts[-1].value, VNamed('slice', {'#slice': val, '#lower': VInt(0, None, len(target.elts) - 1), '#upper': VUnknown('end')}), env)
         elif isinstance(target, (ast.Tuple, ast.List)):
             elts = val.elts if isinstance(val, VTuple) else [VUnknown() for _ in target.elts]
             for t, v in zip(target.elts, elts):
@@ -318,7 +323,8 @@ class Interpreter:
                 elems = [self.element(self.eval(a, env), var) for a in inner.args]
                 bound.append((st.target.elts[1], VTuple(elems)))
             else:
-                bound.append((st.target.elts[1], self.element(self.eval(inner, env), var, offset=start)))
+                # the counter variable itself is the symbol: position = counter - start (a slice adds its lower bound)
+                bound.append((st.target.elts[1], self.element(self.eval(inner, env), var, offset=-start)))
             desc = f'enumerate:{start}:' + core.src(inner)
         elif isinstance(it, ast.Call) and core.call_tail(it) == 'zip':
             var = '_zip' + str(st.lineno)
@@ -357,7 +363,10 @@ class Interpreter:
             return VNamed(f'elem:{seq.name}', {'#seq': seq, '#index': VInt(1, var, offset)})
         if isinstance(seq, VNamed) and '#slice' in seq.fields:
             base = seq.fields['#slice']
-            return VNamed(f'elem:{getattr(base, "name", "")}', {'#seq': base, '#index': VInt(1, var, offset)})
+            lower = seq.fields.get('#lower')
+            if not (isinstance(lower, VInt) and lower.var is None):
+                return VUnknown(f'elem({seq!r})')
+            return VNamed(f'elem:{getattr(base, "name", "")}', {'#seq': base, '#index': VInt(1, var, offset + lower.b)})
         return VUnknown(f'elem({seq!r})')
 
     # -- expressions
